@@ -183,6 +183,52 @@ pub fn record(seed: u64, n: usize, mode: &str, out_path: &str) {
                     Err(m) => out.line(&json!({"ev": "panic", "in": format!("create({}/1024)", k), "msg": m})),
                 }
             }
+        } else if mode == "units" {
+            // C17: the unit of time stamps in label strings
+            let rate = *rng.pick(&[8000usize, 16000, 22050, 44100, 48000, 96000]);
+            let fp = *rng.pick(&[1usize, 80, 123, 240, 256, 441, 480]);
+            let nl = 1 + rng.below(6);
+            let labs = corpus.utterance(&mut rng, nl);
+            let labs: Vec<String> = labs.into_iter().filter(|l| l.parse::<jlabel::Label>().is_ok()).collect();
+            let mut lines = Vec::new();
+            let mut cands = Vec::new();
+            let mut t: u64 = rng.below(1_000_000) as u64;
+            for lab in &labs {
+                let d = rng.below(5_000_000) as u64;
+                if rng.chance(0.15) {
+                    lines.push(lab.clone());
+                    cands.push(json!([]));
+                    cands.push(json!([]));
+                } else {
+                    lines.push(format!("{} {} {}", t, t + d, lab));
+                    cands.push(json!(frame_cands(t, rate, fp)));
+                    cands.push(json!(frame_cands(t + d, rate, fp)));
+                }
+                t += d + rng.below(3) as u64 * 1000;
+            }
+            match guarded(|| Labels::load_from_strings(rate, fp, &lines).map(|l| l.times().to_vec())) {
+                Ok(Ok(times)) => {
+                    // no neighbour fill can occur here except for untimed lines next to timed ones; report raw rounded values,
+                    // and mark entries that were filled from a neighbour (they are not "unknown" any more) by their candidates
+                    let mut got: Vec<i64> = Vec::new();
+                    for (a, b) in &times {
+                        got.push(if *a < 0.0 { -1 } else { a.round() as i64 });
+                        got.push(if *b < 0.0 { -1 } else { b.round() as i64 });
+                    }
+                    // neighbour fill: an unknown end inherits the next start and vice versa (C09); give those the neighbour's candidates
+                    let mut c: Vec<Value> = cands.clone();
+                    let n = labs.len();
+                    for i in 0..n {
+                        if i + 1 < n {
+                            if va(&c[2 * i + 1]).is_empty() && !va(&c[2 * i + 2]).is_empty() { c[2 * i + 1] = c[2 * i + 2].clone(); }
+                            else if !va(&c[2 * i + 1]).is_empty() && va(&c[2 * i + 2]).is_empty() { c[2 * i + 2] = c[2 * i + 1].clone(); }
+                        }
+                    }
+                    out.line(&json!({"ev": "units", "rate": rate, "fperiod": fp, "cands": c, "got": got}));
+                }
+                Ok(Err(e)) => out.line(&json!({"ev": "error", "msg": e.to_string(), "lines": lines})),
+                Err(p) => out.line(&json!({"ev": "panic", "in": "load_from_strings", "msg": p})),
+            }
         } else {
             // alignment through the string form
             let mut engine = base_engine.clone();
